@@ -1,10 +1,10 @@
 package harness
 
 import (
-	"strings"
 	"bytes"
 	"fmt"
 	"os"
+	"strings"
 	"time"
 
 	"go.nanomsg.org/mangos/v3"
